@@ -3,6 +3,7 @@ CONSTANTS
   Entries = {"unmarshal", "frag_open"}
   SrvEntries = {}
   PqlEntries = {}
+  EnvEntries = {}
   MsgEntries = {}
   Formats = {"pilosa"}
   Shapes <- ShapesQuick
